@@ -145,22 +145,26 @@ Section Soc.
   Definition soc_defaults : list string := ["Create"; "Update"; "Delete"; "Follow"; "Add"; "Remove"; "Like"; "Undo"; "Block"].
 
   (* sideEffectActor.PostOutbox: returns (activity as possibly normalised, deliverable) *)
+  (* the Social side effect for the activity: (activity as possibly normalised, deliverable) *)
+  Definition soc_callbacks (a : json) : prog (res (json * bool)) :=
+    if c_social cfg then
+      _ <-? app_unit "SocialCallbacks" [] ;;
+      let ty := type_name a in
+      if mem ty (c_soc_other cfg) then (_ <-? app_unit ("Other:" ++ ty)%string [a] ;; ok (a, true))
+      else if String.eqb ty "Create" then (x <-? create a ;; ok (fst x, true))
+      else if String.eqb ty "Update" then (_ <-? update a ;; ok (a, true))
+      else if String.eqb ty "Delete" then (_ <-? delete a ;; ok (a, true))
+      else if String.eqb ty "Follow" then (_ <-? follow a ;; ok (a, true))
+      else if String.eqb ty "Add" then (_ <-? add_cb a ;; ok (a, true))
+      else if String.eqb ty "Remove" then (_ <-? remove_cb a ;; ok (a, true))
+      else if String.eqb ty "Like" then (_ <-? like a ;; ok (a, true))
+      else if String.eqb ty "Undo" then (_ <-? undo a ;; ok (a, true))
+      else if String.eqb ty "Block" then (_ <-? block a ;; ok (a, false))
+      else (_ <-? app_unit "DefaultCallback" [a] ;; ok (a, true))
+    else ok (a, true).
+
   Definition post_outbox (a : json) : prog (res (json * bool)) :=
-    r <-? (if c_social cfg then
-             _ <-? app_unit "SocialCallbacks" [] ;;
-             let ty := type_name a in
-             if mem ty (c_soc_other cfg) then (_ <-? app_unit ("Other:" ++ ty)%string [a] ;; ok (a, true))
-             else if String.eqb ty "Create" then (x <-? create a ;; ok (fst x, true))
-             else if String.eqb ty "Update" then (_ <-? update a ;; ok (a, true))
-             else if String.eqb ty "Delete" then (_ <-? delete a ;; ok (a, true))
-             else if String.eqb ty "Follow" then (_ <-? follow a ;; ok (a, true))
-             else if String.eqb ty "Add" then (_ <-? add_cb a ;; ok (a, true))
-             else if String.eqb ty "Remove" then (_ <-? remove_cb a ;; ok (a, true))
-             else if String.eqb ty "Like" then (_ <-? like a ;; ok (a, true))
-             else if String.eqb ty "Undo" then (_ <-? undo a ;; ok (a, true))
-             else if String.eqb ty "Block" then (_ <-? block a ;; ok (a, false))
-             else (_ <-? app_unit "DefaultCallback" [a] ;; ok (a, true))
-           else ok (a, true)) ;;
+    r <-? soc_callbacks a ;;
     _ <-? add_to_outbox outbox (fst r) ;;
     ok r.
 End Soc.
